@@ -53,10 +53,29 @@ def r1_dispatch(ctx, repo):
             detail = "the dispatch filters the batch (%s): some designs are never evaluated" % text(g.ifs[0])
         elif isinstance(e, ast.Call) and isinstance(e.func, ast.Call) and access_path(e.func.func) == "delayed" \
                 and access_path(e.func.args[0]) == selfn + ".job.evaluate" and len(e.args) == 1 and access_path(e.args[0]) == access_path(g.target):
-            ok = True
+            if e.keywords:
+                # the worker is started in another mode than the serial path uses (e.g. its store write switched off)
+                ok = None
+                detail = "a task is %s: the worker runs Job.evaluate with other options than the serial path, not recognised" % text(e)
+            else:
+                ok = True
         else:
             detail = "a task is %s, expected delayed(self.job.evaluate)(<the design>)" % text(e)
     ctx.check3(True if ok else (None if detail.endswith("not recognised") else False), "R1", C, where(mod, call), "one Job.evaluate task per element of the batch, shared memory", detail, detail)
+    # completion: the call must return only when every task is done; results consumed lazily / out of order
+    # while later statements already act on the designs are a recognised contradiction
+    ra = kw.get("return_as")
+    if ra is not None:
+        rat = text(ra)
+        later = [s_ for s_ in stmts_of(fn) if getattr(s_, "lineno", 0) > call.lineno and isinstance(s_, (ast.For, ast.Expr, ast.Assign))]
+        acts = [s_ for s_ in later if any((access_path(c_.func) or "").endswith((".sync_individual", ".sync_all", ".append")) for c_ in calls_in(s_))]
+        if "unordered" in rat and acts:
+            ctx.violated("R1", C, where(mod, acts[0]), "the tasks' results are consumed out of order (return_as=%s) while %s acts on the designs in submission order: "
+                         "the k-th completion triggers work on the k-th submitted design, which may still be running, so its stored row is not its final data" % (rat, text(acts[0]).split(chr(10))[0].strip()), key="completion")
+        elif "generator" in rat:
+            ctx.inconclusive("R1", C, where(mod, par), "the tasks' results are consumed lazily (return_as=%s): completion before the following statements is not established" % rat, key="completion")
+    else:
+        ctx.holds("R1", C, where(mod, par), "the Parallel call returns after all tasks are done (list mode)", key="completion")
     # the dispatcher chooses the parallel path only by the process-count option
     fn2 = cls.methods.get("evaluate")
     if fn2 is not None:
